@@ -204,6 +204,21 @@ pub fn run(rep: &Report) -> serde_json::Value {
             check_term(&cx, &t, "d1-binary");
         }
     });
+    // two-key maps over L1 x L1: keys that are different terms under Erlang's == make a map of two entries (built entry
+    // by entry, judged by the independent order; numerically equal keys fall under C03-map-num-keys and are left out)
+    (0..n * n).into_par_iter().for_each(|ij| {
+        let (a, b) = (&l1[ij / n], &l1[ij % n]);
+        if ij / n >= ij % n || vcore::refval::erl_cmp(&denote(a), &denote(b)) == vcore::refval::ErlOrd::Equal { return; }
+        let mut m = std::collections::BTreeMap::new();
+        m.insert(a.clone(), int(1));
+        m.insert(b.clone(), int(2));
+        rep.add("evaluations", 1);
+        if m.len() != 2 {
+            rep.violation("a map built from two different keys holds one entry", json!({"first_key": denote(a).short(), "second_key": denote(b).short()}));
+            return;
+        }
+        check_term(&cx, &OwnedTerm::Map(m), "d1-map-two-keys");
+    });
     fam.insert("d1_pairs".into(), json!(n * n));
     rep.sample(json!({"family": "d1-binary", "value": denote(&build2(&l1[3], &l1[40])[2]).short()}));
 
